@@ -1427,3 +1427,90 @@ func plainMap(g G) { table[g.f] = g.size }
 	r.Floor("E7.memo-key-functions", 500)
 	r.Floor("E7.memo-key-selftest", 3)
 }
+
+// E7FaceWithoutCache: the shaping face every goroutine shares is built without go-text's unsynchronised cache.
+func E7FaceWithoutCache(c *core.Ctx, r *core.Report) {
+	r.Rule("E7.face-without-cache", "each loaded font owns one go-text `font.Face`, and every layout on every goroutine shapes through it. go-text documents a Face as not safe for concurrent use because `GlyphExtents` writes its per-face extents cache without synchronisation; with a nil cache `set` returns before writing (len 0). Every construction of a go-text Face in the module is therefore a composite literal that sets only the embedded Font — never `font.NewFace`, which allocates the cache — and nothing in the module calls `SetPpem`/`SetCoords` on it. The premise is read from the dependency's source: `NewFace` is the function whose returned literal gives the cache field a value")
+	n := 0
+	facePkg := "github.com/go-text/typesetting/font"
+	for _, rel := range modulePkgRels {
+		p := c.Pkg(rel)
+		if p == nil {
+			continue
+		}
+		info := p.TypesInfo
+		for _, fd := range core.AllFuncDecls(p) {
+			if fd.Body == nil || strings.HasSuffix(c.Fset.Position(fd.Pos()).Filename, "_test.go") {
+				continue
+			}
+			k := 0
+			fname := p.Types.Name() + "." + core.FuncName(fd)
+			ast.Inspect(fd.Body, func(m ast.Node) bool {
+				switch x := m.(type) {
+				case *ast.CompositeLit:
+					t := info.TypeOf(x)
+					nt, ok := t.(*types.Named)
+					if !ok || nt.Obj().Name() != "Face" || nt.Obj().Pkg() == nil || nt.Obj().Pkg().Path() != facePkg {
+						return true
+					}
+					k++
+					n++
+					key := fmt.Sprintf("%s|go-text face #%d", fname, k)
+					var extra []string
+					for _, el := range x.Elts {
+						kv, ok := el.(*ast.KeyValueExpr)
+						if !ok {
+							extra = append(extra, "positional element")
+							continue
+						}
+						if id, ok := kv.Key.(*ast.Ident); !ok || id.Name != "Font" {
+							extra = append(extra, types.ExprString(kv.Key))
+						}
+					}
+					if len(extra) == 0 {
+						r.OK("E7.face-without-cache", key, c.Pos(x.Pos()), "literal with the Font only")
+					} else {
+						r.Fail("E7.face-without-cache", key, c.Pos(x.Pos()), fmt.Sprintf("the shared face is built with %s set: any per-face state of go-text is written during shaping without synchronisation", strings.Join(extra, ", ")))
+					}
+				case *ast.CallExpr:
+					f := core.CalleeOf(info, x)
+					if f == nil || f.Pkg() == nil || f.Pkg().Path() != facePkg {
+						return true
+					}
+					switch f.Name() {
+					case "NewFace", "SetPpem", "SetCoords":
+						k++
+						n++
+						r.Fail("E7.face-without-cache", fmt.Sprintf("%s|go-text face #%d", fname, k), c.Pos(x.Pos()), fmt.Sprintf("`%s`: %s gives the face per-face mutable state (the glyph extents cache that GlyphExtents fills on first use of a glyph, without synchronisation; go-text documents faces as not safe for concurrent use). The face belongs to a loaded font that any number of goroutines lay out text with: two first uses of a glyph race, and a reader can see the valid flag before the extents", types.ExprString(x), f.Name()))
+					}
+				}
+				return true
+			})
+		}
+	}
+	// premise: NewFace is what fills the cache field
+	if dep := c.All[facePkg]; dep != nil && len(dep.Syntax) > 0 {
+		ok := false
+		for _, fd := range core.AllFuncDecls(dep) {
+			if fd.Name.Name == "NewFace" && fd.Body != nil {
+				ast.Inspect(fd.Body, func(m ast.Node) bool {
+					if kv, ok2 := m.(*ast.KeyValueExpr); ok2 {
+						if id, ok3 := kv.Key.(*ast.Ident); ok3 && strings.Contains(strings.ToLower(id.Name), "cache") {
+							ok = true
+						}
+					}
+					return true
+				})
+			}
+		}
+		if ok {
+			r.OK("E7.face-without-cache", "premise|font.NewFace allocates the per-face cache", "", "")
+		} else {
+			r.Fail("E7.face-without-cache", "premise|font.NewFace allocates the per-face cache", "", "go-text's NewFace no longer gives a cache field a value in its literal; the premise of the rule has to be re-read against the dependency")
+		}
+	} else {
+		r.Fail("E7.face-without-cache", "premise|font.NewFace allocates the per-face cache", "", "the dependency github.com/go-text/typesetting/font was not loaded with syntax")
+	}
+	r.Count("E7.face-without-cache", n)
+	r.Floor("E7.face-without-cache", 1)
+}
